@@ -534,6 +534,9 @@ def run_inv(ctx, term):
 
 
 def run_unit(unit):
+    import time
+
+    t0 = time.process_time()
     ctx = Ctx(unit)
     g = unit["group"]
     if g == "gen":
@@ -543,4 +546,5 @@ def run_unit(unit):
     else:
         run_diss(ctx, g)
     ctx.agg.flush(ctx.c)
+    ctx.c.extra["cpu_s"] = round(time.process_time() - t0, 1)  # summed over the units in the evidence
     return ctx.c.result()
